@@ -17,11 +17,14 @@ def c21(tier, seed):
     c.rule = ('one initiator and one acceptor Session in one process (pm_thread and pm_pipeline alternating), real reader/writer threads, loopback '
               'TCP, FilePersisters; schedules of 3..25 steps: 1..4 application sends on either side, or a fault - abrupt shutdown of the socket, '
               'destruction of the initiator\'s or the acceptor\'s objects - optionally hitting traffic in flight and followed by 0..3 sends into '
-              'the dead connection, after which both sides are rebuilt from their files and log on again; a send counts once the library took '
-              'responsibility for it (pm_thread: send() returned true; pm_pipeline: the writer thread numbered it); offline checker over the '
+              'the dead connection, after which both sides are rebuilt from their files and log on again; in 40% of the reconnects the schedule '
+              'goes on as soon as both logons are complete, i.e. WHILE the two sides are still asking each other for resends (marked ~ in the '
+              'trace); a send counts once the library took responsibility for it (pm_thread: send() returned true; pm_pipeline: the writer '
+              'thread gave this very message a number and the send number has moved past it); offline checker over the '
               'delivery log: every such message delivered to the peer\'s application at least once, first deliveries in send order, re-deliveries '
-              'flagged PossDup, both sessions continuous with matching numbers after every reconnect; evaluations = messages sent')
-    c.assumptions = ['eventual delivery is judged at the logical quiescent point (both continuous, counters agree and stable); a 20 s watchdog makes the run inconclusive, not failed',
+              'flagged PossDup, both sessions continuous with matching numbers at every settle point; sessions that are established but do not agree after 25 '
+              'heartbeat exchanges which both sides numbered are reported as stuck (a logical criterion, not a time-out); evaluations = messages sent')
+    c.assumptions = ['eventual delivery is judged at the logical quiescent point (both continuous, counters agree and stable); a 60 s watchdog makes the run inconclusive, not failed',
                      'timers are stopped; a pair of heartbeats is sent when the counters disagree for 300 ms (what the heartbeat does in production)',
                      'every fault is followed by a rebuild of both sides (the session objects are not reused across connections)']
     c.finish()
